@@ -92,7 +92,7 @@ func (w *Worker) call(st *State, f *Frame, x *ssa.Call) bool {
 		}
 		panic(cutErr{"no body (external/assembly): " + name})
 	}
-	if w.e.cfg.Concrete && !w.e.initAllowed(fv.Fn) {
+	if w.e.cfg.Concrete && (!w.e.initAllowed(fv.Fn) || initSkip[name]) {
 		return w.opaqueResult(f, x, "not executed during init: "+name)
 	}
 	w.pushCall(st, fv, args, retNormal, 0)
@@ -406,6 +406,13 @@ var redirects = map[string]string{
 	"sort.Ints":                        "sortInts",
 	"sort.Sort":                        "sortSort",
 	"sort.Stable":                      "sortSort",
+}
+
+// initSkip lists functions that lenient init does not execute (reflection-driven
+// registration of generated types); their results are opaque.
+var initSkip = map[string]bool{
+	"(google.golang.org/protobuf/internal/filetype.Builder).Build": true,
+	"(google.golang.org/protobuf/internal/filedesc.Builder).Build": true,
 }
 
 func regIntrinsic(name string, h intrinsic) { intrinsics[name] = h }
